@@ -85,6 +85,10 @@ def gen(rng: Rng, tier, i):
     else:
         tgt = rng.pick([{"name": "tgt", "store": "dir"}, {"name": "tgt", "store": "auto"},
                         {"name": "tgt/", "store": "dir"}])
+    if rng.chance(0.25):
+        # the target alone in pre-existing, otherwise EMPTY parent directories (they are not the
+        # save's to remove)
+        tgt = dict(tgt, name=rng.pick(["solo/", "a/b/c/"]) + tgt["name"])
     pre = rng.weighted([("absent", 3), ("file", 2), ("dir", 1)]) if nver == 1 else "absent"
     pre_size = rng.randrange(4)
     if tgt["name"].endswith("/") and pre == "file":
@@ -130,6 +134,7 @@ def _build_version(plan, v, with_unpicklable=False):
 
 
 def _setup_pre(E, plan, tgt_path):
+    os.makedirs(os.path.dirname(tgt_path), exist_ok=True)   # pre-existing (maybe empty) parents
     # siblings that no save may touch
     os.makedirs(os.path.join(E.work, "sib_dir", "sub"))
     with open(os.path.join(E.work, "sib_dir", "sub", "f.bin"), "wb") as f:
@@ -156,12 +161,27 @@ def _setup_pre(E, plan, tgt_path):
 
 
 def _others_hash(E, tgt_path):
+    """Hash of everything in the work directory EXCEPT the target subtree: every directory
+    (also empty ones, also the target's own parents) and every file with its bytes."""
     h = hashlib.blake2b(digest_size=12)
-    for name in sorted(os.listdir(E.work)):
-        p = os.path.join(E.work, name)
-        if os.path.abspath(p) == os.path.abspath(tgt_path):
-            continue
-        h.update(name.encode() + b"\0" + simstore.tree_hash(p).encode())
+    tgt = os.path.abspath(tgt_path)
+    for dirpath, dirnames, filenames in os.walk(E.work):
+        dirnames.sort()
+        keep = []
+        for dn in dirnames:
+            if os.path.abspath(os.path.join(dirpath, dn)) == tgt:
+                continue
+            keep.append(dn)
+        dirnames[:] = keep
+        h.update(b"D" + os.path.relpath(dirpath, E.work).encode() + b"\0")
+        for fn in sorted(filenames):
+            fp = os.path.join(dirpath, fn)
+            if os.path.abspath(fp) == tgt:
+                continue
+            h.update(b"f" + fn.encode() + b"\0")
+            with open(fp, "rb") as f:
+                h.update(f.read())
+            h.update(b"\0")
     return h.hexdigest()
 
 
